@@ -90,7 +90,8 @@ def generate(rng, tier):
     nrand = 2500 if tier == "quick" else 25000
     for _ in range(nrand):
         D, pats, cols = G.c02_random(rng, dist)
-        sessions.append(G.sk_program(D, None, cols, pats, kstyle=rng.choice(["param", "idef"]), pure_set=rng.random() < 0.3))
+        sessions.append(G.sk_program(D, None, cols, pats, kstyle=rng.choice(["param", "idef"]), pure_set=rng.random() < 0.3,
+                                     helper=rng.random() < 0.3))
         flags.append(G.sk_nontrivial(D, cols))
     nqq = 600 if tier == "quick" else 4000
     for _ in range(nqq):
